@@ -107,16 +107,46 @@ theorem kvUpdate_map (f : Ref → Ref) (kvs add : List (String × Ref)) :
     obtain ⟨k, v⟩ := a
     simp only [List.map_cons, kvUpdate, kvSet_map, ih]
 
+/-! ### cells: generic facts about `refs` / `mapRefs` -/
+
+theorem refs_mapRefs {ρ σ : Type} (f : ρ → σ) (c : CellOf ρ) : (c.mapRefs f).refs = c.refs.map f := by
+  cases c <;> simp [CellOf.mapRefs, CellOf.refs, Function.comp_def]
+
+theorem mapRefs_congr {ρ σ : Type} {f g : ρ → σ} {c : CellOf ρ} (h : ∀ x ∈ c.refs, f x = g x) :
+    c.mapRefs f = c.mapRefs g := by
+  cases c with
+  | leaf v => rfl
+  | list rs => simp only [CellOf.mapRefs, CellOf.list.injEq]; exact List.map_congr_left h
+  | tuple rs => simp only [CellOf.mapRefs, CellOf.tuple.injEq]; exact List.map_congr_left h
+  | set rs => simp only [CellOf.mapRefs, CellOf.set.injEq]; exact List.map_congr_left h
+  | dict kvs =>
+    simp only [CellOf.mapRefs, CellOf.dict.injEq]
+    apply List.map_congr_left
+    intro kv hkv
+    rw [h kv.2 (List.mem_map.2 ⟨kv, hkv, rfl⟩)]
+  | obj cls attrs =>
+    simp only [CellOf.mapRefs, CellOf.obj.injEq, true_and]
+    apply List.map_congr_left
+    intro kv hkv
+    rw [h kv.2 (List.mem_map.2 ⟨kv, hkv, rfl⟩)]
+
+theorem mapRefs_id {ρ : Type} (c : CellOf ρ) : c.mapRefs (fun x => x) = c := by
+  cases c <;> simp [CellOf.mapRefs]
+
+theorem mapRefs_mapRefs {ρ σ τ : Type} (f : ρ → σ) (g : σ → τ) (c : CellOf ρ) :
+    (c.mapRefs f).mapRefs g = c.mapRefs (fun x => g (f x)) := by
+  cases c <;> simp [CellOf.mapRefs, Function.comp_def]
+
+theorem isObj_mapRefs {ρ σ : Type} (f : ρ → σ) (c : CellOf ρ) : (c.mapRefs f).isObj = c.isObj := by
+  cases c <;> rfl
+
 /-! ### renaming one run's region into another's -/
 
 /-- The address `x` of run `r1` read as an address of run `r2` (all other regions unchanged). -/
 def ren (r1 r2 : Nat) (x : Ref) : Ref := if x.reg = .run r1 then ⟨.run r2, x.idx⟩ else x
 
 /-- The object `c` with every reference into run `r1` redirected to run `r2`. -/
-def renCell (r1 r2 : Nat) : Cell → Cell
-  | .leaf v => .leaf v
-  | .list rs => .list (rs.map (ren r1 r2))
-  | .dict kvs => .dict (kvs.map fun kv => (kv.1, ren r1 r2 kv.2))
+def renCell (r1 r2 : Nat) (c : Cell) : Cell := c.mapRefs (ren r1 r2)
 
 theorem ren_run {r1 r2 : Nat} {x : Ref} (h : x.reg = .run r1) : ren r1 r2 x = ⟨.run r2, x.idx⟩ := by
   simp [ren, h]
@@ -136,19 +166,23 @@ theorem ren_self (r : Nat) (x : Ref) : ren r r x = x := by
   · rfl
 
 theorem renCell_self (r : Nat) (c : Cell) : renCell r r c = c := by
-  have hf : ren r r = id := funext (ren_self r)
-  cases c with
-  | leaf v => rfl
-  | list rs => simp [renCell, hf]
-  | dict kvs => simp [renCell, hf]
+  have hf : ren r r = fun x => x := funext (ren_self r)
+  rw [renCell, hf, mapRefs_id]
 
 theorem map_renCell_self (r : Nat) (cs : List Cell) : cs.map (renCell r r) = cs := by
   have : renCell r r = id := funext (renCell_self r)
   simp [this]
 
+theorem renCell_list (r1 r2 : Nat) (rs : List Ref) : renCell r1 r2 (.list rs) = .list (rs.map (ren r1 r2)) := rfl
+theorem renCell_set (r1 r2 : Nat) (rs : List Ref) : renCell r1 r2 (.set rs) = .set (rs.map (ren r1 r2)) := rfl
+theorem renCell_dict (r1 r2 : Nat) (kvs : List (String × Ref)) :
+    renCell r1 r2 (.dict kvs) = .dict (kvs.map fun kv => (kv.1, ren r1 r2 kv.2)) := rfl
+theorem renCell_obj (r1 r2 : Nat) (cls : String) (kvs : List (String × Ref)) :
+    renCell r1 r2 (.obj cls kvs) = .obj cls (kvs.map fun kv => (kv.1, ren r1 r2 kv.2)) := rfl
+
 theorem follow_ren (r1 r2 : Nat) (c : Cell) (s : Seg) :
     (renCell r1 r2 c).follow s = (c.follow s).map (ren r1 r2) := by
-  cases c <;> cases s <;> simp [renCell, Cell.follow, kvGet?_map]
+  cases c <;> cases s <;> simp [renCell, CellOf.mapRefs, Cell.follow, kvGet?_map]
 
 /-! ### references of a cell -/
 
@@ -156,9 +190,11 @@ theorem follow_ren (r1 r2 : Nat) (c : Cell) (s : Seg) :
 def CellIn (g : Region) (c : Cell) : Prop := ∀ x ∈ c.refs, x.reg = g
 
 theorem cellIn_leaf (g : Region) (v : Val) : CellIn g (.leaf v) := by
-  intro x hx; simp [Cell.refs] at hx
+  intro x hx; simp [CellOf.refs] at hx
 
 theorem cellIn_list {g : Region} {rs : List Ref} : CellIn g (.list rs) ↔ ∀ x ∈ rs, x.reg = g := Iff.rfl
+theorem cellIn_tuple {g : Region} {rs : List Ref} : CellIn g (.tuple rs) ↔ ∀ x ∈ rs, x.reg = g := Iff.rfl
+theorem cellIn_set {g : Region} {rs : List Ref} : CellIn g (.set rs) ↔ ∀ x ∈ rs, x.reg = g := Iff.rfl
 
 theorem cellIn_dict {g : Region} {kvs : List (String × Ref)} :
     CellIn g (.dict kvs) ↔ ∀ kv ∈ kvs, kv.2.reg = g := by
@@ -168,10 +204,34 @@ theorem cellIn_dict {g : Region} {kvs : List (String × Ref)} :
     obtain ⟨kv, hm, rfl⟩ := List.mem_map.1 hx
     exact h kv hm
 
+theorem cellIn_obj {g : Region} {cls : String} {kvs : List (String × Ref)} :
+    CellIn g (.obj cls kvs) ↔ ∀ kv ∈ kvs, kv.2.reg = g := by
+  constructor
+  · intro h kv hm; exact h kv.2 (List.mem_map.2 ⟨kv, hm, rfl⟩)
+  · intro h x hx
+    obtain ⟨kv, hm, rfl⟩ := List.mem_map.1 hx
+    exact h kv hm
+
+/-- `mapRefs f` of a cell all of whose references `f` sends into `g`. -/
+theorem cellIn_mapRefs {g : Region} {f : Ref → Ref} {c : Cell} (h : ∀ x ∈ c.refs, (f x).reg = g) :
+    CellIn g (c.mapRefs f) := by
+  intro y hy
+  rw [refs_mapRefs] at hy
+  obtain ⟨x, hx, rfl⟩ := List.mem_map.1 hy
+  exact h x hx
+
 theorem follow_mem {c : Cell} {s : Seg} {b : Ref} (h : c.follow s = some b) : b ∈ c.refs := by
   cases c with
   | leaf v => cases s <;> simp [Cell.follow] at h
+  | set rs => cases s <;> simp [Cell.follow] at h
+  | obj cls attrs => cases s <;> simp [Cell.follow] at h
   | list rs =>
+    cases s with
+    | key k => simp [Cell.follow] at h
+    | idx i =>
+      have h' : rs[i]? = some b := by simpa [Cell.follow] using h
+      exact List.mem_of_getElem? h'
+  | tuple rs =>
     cases s with
     | key k => simp [Cell.follow] at h
     | idx i =>
@@ -185,32 +245,17 @@ theorem follow_mem {c : Cell} {s : Seg} {b : Ref} (h : c.follow s = some b) : b 
       exact List.mem_map.2 ⟨kv, hm, rfl⟩
 
 /-- A cell whose references are all in `r1` is renamed by plainly switching the region. -/
-theorem renCell_in {r1 r2 : Nat} {c : Cell} (_h : CellIn (.run r1) c) :
-    CellIn (.run r2) (renCell r1 r2 c) := by
-  cases c with
-  | leaf v => exact cellIn_leaf _ _
-  | list rs =>
-    intro x hx
-    simp only [renCell, Cell.refs, List.mem_map] at hx
-    obtain ⟨y, hy, rfl⟩ := hx
-    rw [ren_run (_h y hy)]
-  | dict kvs =>
-    intro x hx
-    simp only [renCell, Cell.refs, List.mem_map] at hx
-    obtain ⟨kv', ⟨kv, hkv, rfl⟩, rfl⟩ := hx
-    rw [ren_run (_h kv.2 (List.mem_map.2 ⟨kv, hkv, rfl⟩))]
+theorem renCell_in {r1 r2 : Nat} {c : Cell} (h : CellIn (.run r1) c) :
+    CellIn (.run r2) (renCell r1 r2 c) :=
+  cellIn_mapRefs fun x hx => by rw [ren_run (h x hx)]
 
 /-! ### fresh blocks -/
 
 theorem toCell_in (g : Region) (base : Nat) (b : BCell) : CellIn g (b.toCell g base) := by
-  cases b with
-  | leaf v => exact cellIn_leaf _ _
-  | list js => intro x hx; simp only [BCell.toCell, Cell.refs, List.mem_map] at hx; obtain ⟨j, _, rfl⟩ := hx; rfl
-  | dict kjs =>
-    intro x hx
-    simp only [BCell.toCell, Cell.refs, List.mem_map] at hx
-    obtain ⟨kv, ⟨kj, _, rfl⟩, rfl⟩ := hx
-    rfl
+  intro y hy
+  rw [BCell.toCell, refs_mapRefs] at hy
+  obtain ⟨j, _, rfl⟩ := List.mem_map.1 hy
+  rfl
 
 theorem relocate_in (b : Block) (g : Region) (base : Nat) : ∀ c ∈ Block.relocate b g base, CellIn g c := by
   intro c hc
@@ -236,10 +281,7 @@ theorem relocAll_in (g : Region) (base : Nat) (bs : List Block) :
 
 theorem toCell_ren (r1 r2 base : Nat) (b : BCell) :
     renCell r1 r2 (b.toCell (.run r1) base) = b.toCell (.run r2) base := by
-  cases b with
-  | leaf v => rfl
-  | list js => simp [BCell.toCell, renCell, ren_mk, Function.comp_def]
-  | dict kjs => simp [BCell.toCell, renCell, ren_mk, Function.comp_def]
+  simp only [renCell, BCell.toCell, mapRefs_mapRefs, ren_mk]
 
 theorem relocate_ren (r1 r2 base : Nat) (b : Block) :
     (Block.relocate b (.run r1) base).map (renCell r1 r2) = Block.relocate b (.run r2) base := by
@@ -252,5 +294,8 @@ theorem relocAll_ren (r1 r2 base : Nat) (bs : List Block) :
   | nil => simp [relocAll]
   | cons b rest ih =>
     simp [relocAll, relocate_ren, ren_mk, (ih _).1, (ih _).2]
+
+theorem isObj_toCell (g : Region) (base : Nat) (b : BCell) : (b.toCell g base).isObj = b.isObj :=
+  isObj_mapRefs _ _
 
 end Pypyr.C12
